@@ -12,6 +12,48 @@ MACS = ["none", "FASTOR_USE_HADD", "FASTOR_MATMUL_OUTER_BLOCK_SIZE=1", "FASTOR_M
         "FASTOR_DISABLE_SPECIALISED_CTR", "FASTOR_DISPATCH_DIV_TO_MUL_EXPR"]
 
 
+# Macro sweeps.  A tuning macro only changes the code inside its own #if blocks; AFFECTS (checked against the sweep table by TLC in
+# Config.tla: SweepOK) names the API areas those blocks belong to (from `grep -rl <macro> Fastor/`).  For every (macro, area) the area's
+# plan -- filtered to the calls that can reach the macro's code, then sampled -- runs under a macro-free baseline and under the macro on
+# the wide ISAs.  (pid -> module, macros, filter, quick fraction (0 = thorough only), thorough fraction)
+HADD_FNS = ("norm", "sum", "inner", "inner1", "trace", "trace_b", "det", "det_b", "determinant", "product")
+BLK = ["FASTOR_MATMUL_OUTER_BLOCK_SIZE=1", "FASTOR_MATMUL_OUTER_BLOCK_SIZE=3", "FASTOR_MATMUL_INNER_BLOCK_SIZE=1", "FASTOR_MATMUL_INNER_BLOCK_SIZE=3",
+       "FASTOR_MATMUL_INNER_BLOCK_SIZE=5"]
+SWEEPS = [
+    ("C16", "c16", ["FASTOR_USE_HADD"], lambda c: c.get("T") in ("f32", "f64") and c.get("fn") in HADD_FNS, 1.0, 1.0),
+    ("C08", "c08", ["FASTOR_USE_HADD", "FASTOR_ZERO_INITIALISE"],
+     lambda c: c.get("op") in ("sum", "dot", "product", "norm", "ctor0", "ctor_b", "ctor_ld", "set1", "setn", "setseq", "copy"), 0.5, 1.0),
+    ("C01", "c01", ["FASTOR_USE_HADD"] + BLK, None, 0.04, 0.3),
+    ("C17", "c17", BLK[:4], None, 0, 0.1),
+    ("C14", "c14", ["FASTOR_TRANS_OUTER_BLOCK_SIZE=2", "FASTOR_TRANS_INNER_BLOCK_SIZE=4"], None, 0.12, 0.6),
+    ("C03", "c03", ["FASTOR_USE_HADD", "FASTOR_DONT_PERFORM_OP_MIN", "FASTOR_KEEP_DP_FIXED"], None, 0.1, 0.5),
+    ("C10", "c10", ["FASTOR_USE_HADD"], None, 0.04, 0.25),
+    ("C05", "c05", ["FASTOR_USE_VECTORISED_EXPR_ASSIGN"], None, 0.08, 0.5),
+    ("C04", "c04", ["FASTOR_USE_VECTORISED_EXPR_ASSIGN"], None, 0.08, 0.5),
+    ("C19", "c19", ["FASTOR_USE_VECTORISED_EXPR_ASSIGN"], None, 0.08, 0.5),
+    ("C20", "c20", ["FASTOR_ZERO_INITIALISE", "FASTOR_DISABLE_SPECIALISED_CTR"], None, 0.1, 0.5),
+    ("C02", "c02", ["FASTOR_DISPATCH_DIV_TO_MUL_EXPR"], None, 0.05, 0.3),
+]
+SWEEP_BASE = "avx2-14-O2"
+
+
+def sweep_cfgs(macs, tier):
+    out = [SWEEP_BASE]
+    for i, m in enumerate(macs):
+        if m == "FASTOR_USE_HADD":          # the macro selects code per ISA family (SSSE3 / AVX blocks of extintrin.h)
+            isas = ["avx", "avx512"] if tier == "quick" else ["sse42", "avx", "avx2", "avx512"]
+        else:
+            isas = [("avx2", "avx512")[i % 2]] if tier == "quick" else ["avx2", "avx512"]
+        out += ["%s-14-O2+%s" % (isa, m) for isa in isas]
+    return out
+
+
+def parse_cfg(name):
+    parts = name.split("+")
+    isa, std, opt = parts[0].split("-")
+    return rec(isa, std, opt, "0", parts[1] if len(parts) > 1 else "none")
+
+
 def rec(isa, std, opt, chk="0", mac="none"):
     return {"isa": isa, "std": std, "opt": opt, "chk": chk, "mac": mac}
 
@@ -73,32 +115,53 @@ class C06(Check):
         arrp = ctx.path("config_array.json")
         with open(arrp, "w") as f:
             json.dump(arr, f)
-        env = {"CONFIG_ARRAY": arrp, "CONFIG_LEVEL": ctx.tier}
-        model_check(ctx, "Config", "Config.cfg", workers=1, env=env)
         cfgs = [cfg_name(r) for r in arr]
-        all_events, all_rejects, jst, nplan = [], [], 0, 0
-        known_hits, viol, notes = {}, [], []
+        # job list: the covering array on a cross-section of every corpus, then the macro sweeps
+        jobs = []
         for mod, pid, frac, inquick in SUBS:
             if ctx.tier == "quick" and not inquick:
+                continue
+            jobs.append((pid, mod, pid, frac if ctx.tier == "quick" else min(1.0, frac * 2.5), cfgs, None))
+        sweep_tab = []
+        only = os.environ.get("VERIF_C06_ONLY")            # experimentation: run one job only (e.g. "sweep-C16")
+        for pid, mod, macs, filt, fq, ft in SWEEPS:
+            f = fq if ctx.tier == "quick" else ft
+            if f <= 0:
+                continue
+            sc = sweep_cfgs(macs, ctx.tier)
+            jobs.append(("sweep-" + pid, mod, pid, f, sc, filt))
+            sweep_tab.append({"area": pid, "cfgs": [parse_cfg(c) for c in sc]})
+        swp = ctx.path("config_sweep.json")
+        with open(swp, "w") as f:
+            json.dump(sweep_tab, f)
+        env = {"CONFIG_ARRAY": arrp, "CONFIG_LEVEL": ctx.tier, "CONFIG_SWEEP": swp}
+        model_check(ctx, "Config", "Config.cfg", workers=1, env=env)
+        all_cfgs = list(cfgs)
+        all_events, all_rejects, jst, nplan = [], [], 0, 0
+        known_hits, viol, notes = {}, [], []
+        for label, mod, pid, frac_t, jcfgs, filt in jobs:
+            if only and label != only:
                 continue
             try:
                 m = importlib.import_module(mod)
             except ModuleNotFoundError:
                 continue
             sub = getattr(m, pid)()
-            frac_t = frac if ctx.tier == "quick" else min(1.0, frac * 2.5)
+            all_cfgs += [c for c in jcfgs if c not in all_cfgs]
             if hasattr(sub, "types_quick"):
                 sub.types_quick = ["f64", "i32"]
                 sub.types_thorough = ["f64", "i32", "f32"]
-            sub.configs = lambda c, _cf=cfgs: list(_cf)
+            sub.configs = lambda c, _cf=jcfgs: list(_cf)
             orig_plan = sub.plan
 
-            def sampled(c, _orig=orig_plan, _f=frac_t, _pid=pid):
+            def sampled(c, _orig=orig_plan, _f=frac_t, _pid=pid, _filt=filt):
                 c2 = Ctx.__new__(Ctx)
                 c2.__dict__.update(c.__dict__)
                 c2.tier = "quick"
                 pl = _orig(c2)
                 c.mc_results = c2.mc_results
+                if _filt:
+                    pl = [x for x in pl if _filt(x)]
                 keep = [x for x in pl if int(hashlib.md5((x["case"] + str(c.seed)).encode()).hexdigest(), 16) % 1000 < _f * 1000]
                 return keep or pl[:5]
             sub.plan = sampled
@@ -106,10 +169,15 @@ class C06(Check):
             sub.allow_compile_fail = lambda: True
             sctx = Ctx.__new__(Ctx)
             sctx.__dict__.update(ctx.__dict__)
-            sctx.work = os.path.join(ctx.work, pid)
+            sctx.work = os.path.join(ctx.work, label)
             os.makedirs(sctx.work, exist_ok=True)
-            log("C06: sub-corpus %s" % pid)
-            r = sub.run_core(sctx)
+            log("C06: %s (%d configurations)" % (label, len(jcfgs)))
+            try:
+                r = sub.run_core(sctx)
+            except ToolFailure as e:
+                if ctx.replay and "is not in the plan" in str(e):
+                    continue                      # replay: the case belongs to another job
+                raise
             ctx.mc_results = sctx.mc_results
             nplan += len(r["plan"])
             all_events += r["events"]
@@ -122,7 +190,7 @@ class C06(Check):
             for ev in r["events"]:
                 if "outs" in ev:
                     ncfg_of[ev["case"]] = len(ev["outs"])
-            dep = [rj for rj in r["rejects"] if len(by_case[rj["case"]]) < ncfg_of.get(rj["case"], len(cfgs))]
+            dep = [rj for rj in r["rejects"] if ctx.replay or len(by_case[rj["case"]]) < ncfg_of.get(rj["case"], len(jcfgs))]
             uni = len(r["rejects"]) - len(dep)
             if uni:
                 notes.append("%s: %d rejections identical in every configuration (reported by ./check %s)" % (pid, uni, pid))
@@ -141,5 +209,6 @@ class C06(Check):
                 seen.add(p)
                 print("VIOLATION property=C06 replay=%s" % p, flush=True)
         ctx.notes += notes
-        self.evidence(ctx, [None] * nplan, cfgs, all_events, jst, known_hits, viol)
+        self.jobs_run = [(j[0], len(j[4])) for j in jobs if not only or j[0] == only]
+        self.evidence(ctx, [None] * nplan, all_cfgs, all_events, jst, known_hits, viol)
         return 1 if viol else 0
